@@ -34,6 +34,9 @@ func (e *eventStream) Receive(c *Context) {
 	switch msg := c.Message().(type) {
 	case eventSub:
 		// subscribers are identified by address and id, not by *PID object.
+		if msg.pid == nil {
+			return
+		}
 		for sub := range e.subs {
 			if sub.Equals(msg.pid) {
 				return
@@ -41,6 +44,9 @@ func (e *eventStream) Receive(c *Context) {
 		}
 		e.subs[msg.pid] = true
 	case eventUnsub:
+		if msg.pid == nil {
+			return
+		}
 		for sub := range e.subs {
 			if sub.Equals(msg.pid) {
 				delete(e.subs, sub)
